@@ -136,6 +136,94 @@ def mutants3(files):
                 yield f, i, l, c[:m.start()] + m.group(1) + 'None' + m.group(3), 'Some(..) -> None'
 
 
+# fourth operator set (--ops 4): the fault kinds of seeded round 13 — dropped conjuncts / disjuncts (leniency and hardening), range
+# checks of conversions replaced by `as` casts, further narrowing casts, byte-literal and named-constant confusions, index and
+# slice-bound shifts, half-open <-> closed ranges, dropped additive terms, defaults of `unwrap_or`
+CONSTS = ['SECONDS_PER_MINUTE', 'MINUTES_PER_HOUR', 'HOURS_PER_DAY', 'SECONDS_PER_HOUR', 'SECONDS_PER_DAY', 'DAYS_PER_WEEK',
+          'SECONDS_PER_WEEK', 'SECONDS_PER_28_DAYS', 'MONTHS_PER_YEAR', 'DAYS_PER_NORMAL_YEAR', 'SECONDS_PER_NORMAL_YEAR',
+          'SECONDS_PER_LEAP_YEAR', 'DAYS_PER_4_YEARS', 'DAYS_PER_100_YEARS', 'DAYS_PER_400_YEARS']
+CONST_NEIGHBOURS = {'SECONDS_PER_MINUTE': ['SECONDS_PER_HOUR'], 'MINUTES_PER_HOUR': ['HOURS_PER_DAY'], 'HOURS_PER_DAY': ['MINUTES_PER_HOUR'],
+                    'SECONDS_PER_HOUR': ['SECONDS_PER_MINUTE', 'SECONDS_PER_DAY'], 'SECONDS_PER_DAY': ['SECONDS_PER_HOUR', 'SECONDS_PER_WEEK'],
+                    'DAYS_PER_WEEK': ['HOURS_PER_DAY'], 'SECONDS_PER_WEEK': ['SECONDS_PER_DAY', 'SECONDS_PER_28_DAYS'],
+                    'SECONDS_PER_28_DAYS': ['SECONDS_PER_WEEK'], 'MONTHS_PER_YEAR': ['DAYS_PER_WEEK'],
+                    'DAYS_PER_NORMAL_YEAR': ['DAYS_PER_4_YEARS'], 'SECONDS_PER_NORMAL_YEAR': ['SECONDS_PER_LEAP_YEAR'],
+                    'SECONDS_PER_LEAP_YEAR': ['SECONDS_PER_NORMAL_YEAR'], 'DAYS_PER_4_YEARS': ['DAYS_PER_NORMAL_YEAR', 'DAYS_PER_100_YEARS'],
+                    'DAYS_PER_100_YEARS': ['DAYS_PER_4_YEARS', 'DAYS_PER_400_YEARS'], 'DAYS_PER_400_YEARS': ['DAYS_PER_100_YEARS'],
+                    'CUMUL_DAYS_IN_MONTHS_NORMAL_YEAR': ['CUMUL_DAYS_IN_MONTHS_LEAP_YEAR'], 'CUMUL_DAYS_IN_MONTHS_LEAP_YEAR': ['CUMUL_DAYS_IN_MONTHS_NORMAL_YEAR'],
+                    'DAYS_IN_MONTHS_NORMAL_YEAR': ['DAY_IN_MONTHS_LEAP_YEAR_FROM_MARCH'], 'UNIX_OFFSET_SECS': ['SECONDS_PER_NORMAL_YEAR'], 'OFFSET_YEAR': ['DAYS_PER_NORMAL_YEAR']}
+BYTES = ["b'+'", "b'-'", "b'J'", "b'M'", "b','", "b'/'", "b'.'", "b':'", "b'<'", "b'>'", "b'\\n'", "b'0'", "b'9'", "b'a'", "b'z'", "b'A'", "b'Z'"]
+SUBS4 = [(r' as i32\b', ' as i16 as i32'), (r' as u32\b', ' as u16 as u32'), (r' as i128\b', ' as i64 as i128'), (r' as u8\b', ' as i8 as u8'),
+         (r' as i64\b', ' as i8 as i64'), (r' as usize\b', ' as u16 as usize'), (r' as u64\b', ' as u32 as u64'), (r' as i8\b', ' as u8 as i8'),
+         (r'\b(i8|i16|i32|i64|u8|u16|u32|u64|usize)::try_from\(([^()]*(?:\([^()]*\))?[^()]*)\)\?', r'((\2) as \1)'),
+         (r'\.try_into\(\)\?', '.try_into().unwrap_or_default()'),
+         (r'\[(\w+)\]', r'[\1 + 1]'), (r'\[(\w+)\]', r'[\1 - 1]'), (r'\[(\w+) \+ 1\]', r'[\1]'), (r'\[(\w+) - 1\]', r'[\1]'),
+         (r'\[\.\.(\w[\w.()]*)\]', r'[..\1 - 1]'), (r'\[(\w[\w.()]*)\.\.\]', r'[\1 + 1..]'), (r'\[1\.\.\]', '[..]'), (r'\[\.\.(\w[\w.()]*) - 1\]', r'[..\1]'),
+         (r'(?<![.=\w])(\w[\w.()]*)\.\.(?![.=])(\w)', r'\1..=\2'), (r'\.unwrap_or\(([^()]+)\)', r'.unwrap_or(\1 + 1)'),
+         (r'\.unwrap_or\(0\)', '.unwrap_or(1)'), (r'\.get\((\w+)\)', r'.get(\1 + 1)'), (r'\.windows\(2\)', '.windows(3)'),
+         (r'\.skip\((\w+)\)', r'.skip(\1 + 1)'), (r'\.take\((\w+)\)', r'.take(\1 - 1)'), (r'\.chunks_exact\((\w+)\)', r'.chunks(\1)'),
+         (r'\.saturating_(add|sub)\(', r'.wrapping_\1('), (r'\.wrapping_(add|sub)\(', r'.saturating_\1('),
+         (r'\bi128\b', 'i64'), (r'\bi64::MAX\b', 'i32::MAX as i64'), (r'\bi64::MIN\b', 'i32::MIN as i64'),
+         (r'\bi32::MAX\b', '(i32::MAX - 1)'), (r'\bi32::MIN\b', '(i32::MIN + 1)'), (r'\bu8::MAX\b', '(u8::MAX - 1)')]
+CLAUSE = re.compile(r' (&&|\|\|) ')
+ADDTERM = re.compile(r' ([-+]) ([A-Za-z_][\w.]*(?:\([^()]*\))?|\d[\d_]*)(?=[ ;,)\]])')
+
+
+def _split_top(code, start, end):
+    """top-level ' && ' / ' || ' positions inside code[start:end] (parenthesis depth 0 relative to start)"""
+    depth = 0
+    out = []
+    i = start
+    while i < end:
+        c = code[i]
+        if c in '([{':
+            depth += 1
+        elif c in ')]}':
+            depth -= 1
+        elif depth == 0 and code.startswith(' && ', i):
+            out.append((i, '&&'))
+        elif depth == 0 and code.startswith(' || ', i):
+            out.append((i, '||'))
+        i += 1
+    return out
+
+
+def mutants4(files):
+    for f in files:
+        src, lines = code_lines(f'{REPO}/{f}')
+        for i, l in lines:
+            code = l.split('//')[0]
+            for pat, rep in SUBS4:
+                for m in re.finditer(pat, code):
+                    new = code[:m.start()] + m.expand(rep) + code[m.end():] + l[len(code):]
+                    if new != l:
+                        yield f, i, l, new, f'{pat.strip()} -> {rep.strip()}'
+            # a conjunct / disjunct dropped: only on single-line conditions  `if A && B {`,  `while A || B {`,  `let x = A && B;`
+            m = re.match(r'^(\s*(?:\} else )?(?:if|while) )(?!let )(.+)( \{\s*)$', code.rstrip('\n')) or re.match(r'^(\s*(?:let \w+ = |return )?)(.+ (?:&&|\|\|) .+)(;\s*)$', code.rstrip('\n'))
+            if m:
+                cond = m.group(2)
+                ops = _split_top(cond, 0, len(cond))
+                if ops and len({o for _, o in ops}) == 1:
+                    cuts = [0] + [p for p, _ in ops] + [len(cond)]
+                    parts = [cond[cuts[k] + (4 if k else 0):cuts[k + 1]] for k in range(len(cuts) - 1)]
+                    for k in range(len(parts)):
+                        rest = parts[:k] + parts[k + 1:]
+                        yield f, i, l, m.group(1) + f' {ops[0][1]} '.join(rest) + m.group(3), f'clause {k + 1} of {len(parts)} ({ops[0][1]}) dropped'
+            for c, ns in CONST_NEIGHBOURS.items():
+                for m2 in re.finditer(r'\b' + c + r'\b', code):
+                    for n in ns:
+                        yield f, i, l, code[:m2.start()] + n + code[m2.end():] + l[len(code):], f'constant {c} -> {n}'
+            for b in BYTES:
+                pos = code.find(b)
+                while pos >= 0:
+                    for b2 in BYTES:
+                        if b2 != b and (b[2] in '+-JM,/.:<>' and b2[2] in '+-JM,/.:<>' and abs(BYTES.index(b) - BYTES.index(b2)) <= 2):
+                            yield f, i, l, code[:pos] + b2 + code[pos + len(b):] + l[len(code):], f'byte {b} -> {b2}'
+                    pos = code.find(b, pos + 1)
+            for m2 in ADDTERM.finditer(code):
+                new = code[:m2.start()] + code[m2.end():] + l[len(code):]
+                yield f, i, l, new, f'term "{m2.group(1)} {m2.group(2)}" dropped'
+
+
 def sh(cmd, cwd=None, env=None, timeout=900):
     import signal
     p = subprocess.Popen(cmd, cwd=cwd, env=env, shell=True, stdout=subprocess.PIPE, stderr=subprocess.STDOUT, text=True, start_new_session=True)
@@ -217,7 +305,7 @@ def main():
     ap.add_argument('--stride', type=int, default=1, help='take every n-th mutant')
     ap.add_argument('--offset', type=int, default=0)
     ap.add_argument('--keep', action='store_true')
-    ap.add_argument('--ops', type=int, default=1, help='1 = operator swaps / small literals, 2 = conditions, deleted checks, large literals, method swaps, 3 = wrong-variable faults, direction flips, wrapping arithmetic, dropped statements')
+    ap.add_argument('--ops', type=int, default=1, help='1 = operator swaps / small literals, 2 = conditions, deleted checks, large literals, method swaps, 3 = wrong-variable faults, direction flips, wrapping arithmetic, dropped statements, 4 = dropped clauses / terms, conversions without range check, narrowing casts, byte / constant confusions, index and range shifts')
     ap.add_argument('--scr', default='/tmp/mutsweep', help='scratch directory (one per concurrent worker)')
     a = ap.parse_args()
     set_scr(a.scr)
@@ -239,7 +327,7 @@ def main():
                 pass
     res = open(a.out, 'a')
     n = 0
-    gen = {1: mutants, 2: mutants2, 3: mutants3}[a.ops]
+    gen = {1: mutants, 2: mutants2, 3: mutants3, 4: mutants4}[a.ops]
     for k, (f, i, old, new, desc) in enumerate(gen(a.files.split(','))):
         if k % a.stride != a.offset or (f, i + 1, new.strip()) in done:
             continue
